@@ -1,25 +1,16 @@
-(** C14 -- property theorems, part 10: density rises with pressure at fixed temperature in region 1
-    -- PARTIAL.  Domain proved (t in degC, p in Pa; psat = what the traced sat computes):
-        0 <= t <= 260:    0 <= p <= 100 MPa  (region 1 and the metastable liquid below psat)
-        260 < t <= 285:   psat(t) <= p       (all of region 1)
-        285 < t <= 300:   12.5 MPa <= p;  300 < t <= 312: 17.5 MPa <= p;  312 < t <= 326: 25 MPa <= p;
-        326 < t <= 338:   30 MPa <= p;    338 < t <= 350: 40 MPa <= p.
-    NOT proved: the strip between the saturation curve and those limits for t > 285 degC (the
-    34-term sum cancels to as little as 1/9000 of its largest term there; interval bisection in two
-    variables does not close); it is only sampled by the oracle. *)
+(** C14 -- property theorems, part 10: density rises with pressure at fixed temperature on ALL of
+    region 1: every real 0 <= t <= 350 degC and 0 <= p1 < p2 <= 100 MPa (region 1 and the metastable
+    liquid below the saturation pressure); rho is the density the traced cowat returns over R. *)
 From Coq Require Import ZArith QArith Qreals Reals List.
 From Gen Require Import GenIAPWS GenTraced.
-From P Require Import Expr RunR Formulas SatRange Potential Mono1 Mono1Thm.
+From P Require Import Expr RunR Potential Mono1 Mono1Thm.
 Import ListNotations.
 Close Scope Q_scope.
 Open Scope R_scope.
 
-Theorem density_increases_with_pressure_region1_partial : forall t p1 p2 : R,
+Theorem density_increases_with_pressure_region1 : forall t p1 p2 : R,
   0 <= t <= 350 -> 0 <= p1 -> p1 < p2 <= 100000000 ->
-  (260 < t <= 285 -> sat_val n4 (t + Q2R tc_k_Q) <= p1) ->
-  (285 < t -> 12500000 <= p1) -> (300 < t -> 17500000 <= p1) -> (312 < t -> 25000000 <= p1) ->
-  (326 < t -> 30000000 <= p1) -> (338 < t -> 40000000 <= p1) ->
   let rho p := nth 0 (outsR cowat_traced [t; p] n1) 0 in
   0 < rho p1 < rho p2.
-Proof. exact density_increases_region1_partial_proof. Qed.
-Print Assumptions density_increases_with_pressure_region1_partial.
+Proof. exact density_increases_region1_proof. Qed.
+Print Assumptions density_increases_with_pressure_region1.
